@@ -1505,7 +1505,99 @@ def enum_history(tier, seed):
                        "ops": [H_ALPHABET[0]] + [H_ALPHABET[i] for i in seq]}
 
 
+# ------------------------------------------ leg: closing behind delivered data
+# The sender's messages have crossed the link and sit - received and
+# acknowledged - in the receiver's queue when the sender closes.  The
+# receiving application reads them afterwards: "every message accepted by
+# send() is returned by the peer's recv() exactly once", then the end of the
+# stream.
+def run_close_unread(case, ctx):
+    ctx.set_class("close-unread")
+    pair = LlcPair(128, 128, bool(case["agf"]), bool(case["agf"]))
+    try:
+        sv, cl = ("b", "a") if case["client"] == "a" else ("a", "b")
+        srv = pair.socket(sv, DATA_LINK_CONNECTION)
+        srv.setsockopt(nfc.llcp.SO_RCVBUF, case["rw"])
+        srv.bind(40)
+        srv.listen(1)
+        acc = {}
+
+        def acceptor():
+            acc["sock"] = srv.accept()
+        pair.call(acceptor, "acceptor")
+        cli = pair.socket(cl, DATA_LINK_CONNECTION)
+        cli.setsockopt(nfc.llcp.SO_RCVBUF, case["rw"])
+        box = pair.call(lambda: cli.connect(40), "connect")
+        pair.pump(4, first=cl)
+        if not box.done or box.exc is not None or "sock" not in acc:
+            raise HarnessError("close-unread: no connection (%r)" % box.exc)
+        ends = {cl: cli, sv: acc["sock"]}
+        snd = case["sender"]
+        rcv = other(snd)
+        sent = []
+        for i in range(case["n"]):
+            msg = message(i, 5 + i)
+            if ends[snd].send(msg, nfc.llcp.MSG_DONTWAIT):
+                sent.append(msg)
+        # everything crosses the link and is acknowledged
+        pair.pump(2 + 2 * case["n"], first=snd)
+        # some of it may be read before the peer closes
+        got = []
+        for _ in range(case["read_before"]):
+            if ends[rcv].poll("recv", 0):
+                got.append(bytes(ends[rcv].recv()))
+        cbox = pair.call(ends[snd].close, "close")
+        pair.pump(4, first=snd)
+        for _ in range(case["n"] + 2):
+            try:
+                if not ends[rcv].poll("recv", 0):
+                    break
+                m = ends[rcv].recv()
+            except nfc.llcp.Error:
+                break
+            if m is None:
+                break
+            got.append(bytes(m))
+        for name, exc in pair.failures():
+            raise unexpected(exc, oracle="thread-died")
+        ctx.label("sent:%d" % len(sent), "read-before-close:%d" % min(
+            case["read_before"], len(sent)))
+        if len(sent) > case["read_before"]:
+            ctx.nontrivial()
+        if got != sent:
+            raise Violation("message-lost", "%d message(s) had been accepted, "
+                            "delivered and acknowledged before %s closed; %s "
+                            "read %d of them before and got %r in total"
+                            % (len(sent), snd, rcv, case["read_before"],
+                               [len(x) for x in got]))
+        if not cbox.done:
+            ctx.label("close-pending")
+    finally:
+        pair.close()
+
+
+def enum_close_unread(tier, seed):
+    for client in "ab":
+        for sender in "ab":
+            for agf in (False, True):
+                for rw in (1, 2, 3, 15):
+                    for n in range(1, min(rw, 4) + 1):
+                        for rb in range(0, n + 1):
+                            yield {"client": client, "sender": sender,
+                                   "agf": agf, "rw": rw, "n": n,
+                                   "read_before": rb}
+
+
 LEGS = [
+    Leg("close-unread", run=run_close_unread, enum=enum_close_unread,
+        exhaustive=True, shards_quick=4, shards_thorough=8,
+        rule="one connection, either side client, either side sender, RW 1 / "
+             "2 / 3 / 15, aggregation on / off: 1..min(RW,4) messages are "
+             "accepted, cross the link and are acknowledged; the receiving "
+             "application reads 0..n of them, then the SENDER closes (DISC), "
+             "then the receiver reads on: it gets every message once and in "
+             "order before the end of the stream.  Non-trivial = messages "
+             "were still unread when the sender closed."),
     Leg("machine", run=run_machine,
         gen=lambda tier: machine_case(150 if tier == "quick" else 400),
         quick=1200, thorough=12000, shards_quick=12, shards_thorough=16,
